@@ -5,6 +5,7 @@ import (
 	"encoding/json"
 	"fmt"
 	"os"
+	"sort"
 	"strings"
 
 	"github.com/bufbuild/protocompile/ast"
@@ -181,7 +182,7 @@ func runUnits(in *bufio.Scanner, out *bufio.Writer, noRef bool) error {
 			}
 			seen := map[string]bool{}
 			for _, m := range colMiss {
-				feat := ""
+				var fs []string
 				for i := m.off - 1; i >= 0 && data[i] != '\n'; i-- {
 					var f string
 					switch {
@@ -194,9 +195,14 @@ func runUnits(in *bufio.Scanner, out *bufio.Writer, noRef bool) error {
 					case data[i] >= 0x80:
 						f = "multibyte"
 					}
-					if f != "" && !strings.Contains(feat, f) {
-						feat += "+" + f
+					if f != "" && !strings.Contains(strings.Join(fs, "+"), f) {
+						fs = append(fs, f)
 					}
+				}
+				sort.Strings(fs)
+				feat := ""
+				if len(fs) > 0 {
+					feat = "+" + strings.Join(fs, "+")
 				}
 				cls := prefix + "col:" + m.where + feat
 				if !seen[cls] {
@@ -222,9 +228,10 @@ func runUnits(in *bufio.Scanner, out *bufio.Writer, noRef bool) error {
 			}
 			for _, b := range c.Bnd {
 				st.DirectChecks++
-				check("direct", fi.SourcePos(b[0]))
+				check("sourcepos", fi.SourcePos(b[0]))
 			}
 		}()
+		flush("direct:")
 
 		// (B) the lexer's line table: parse, then every token, comment, error and node
 		o := doParse(data, false)
